@@ -148,6 +148,108 @@ def gen_aimed(rng, idx):
             "meta": {"aimed": True, "oddmode": odd, "disciplined": True}}
 
 
+def gen_helpscan_fill(rng, idx):
+    """help_scan of a detaching thread adopts an orphaned record whose retired pointers do not fit into the adopter's
+    array any more (dest.push returns 'full' -> intermediate scan): four threads, P = 4, R = 4H+1+d.
+    A, D hold guards; B retires 3H objects guarded by A, D, C and detaches (they stay in its record); A and D move their
+    guards to 2H other objects which C retires; C detaches: its scan keeps 2H, help_scan moves B's 3H entries in.
+    Returns (case without schedule, phases) for conc_check.phased_schedules."""
+    H = 1 + rng.below(2)
+    d = rng.below(2) if H >= 2 else 0
+    P = 4
+    R = 4 * H + 1 + d
+    scan = rng.below(2)
+    odd = 1 if rng.chance(1, 4) else 0
+    base = 2 + 2 * rng.below(20)
+    p = [(base + 2 * i) | odd for i in range(3 * H)]
+    q = [(base + 2 * (3 * H + i)) | odd for i in range(2 * H)]
+    A = [[1]] + [[4, j, p[j]] for j in range(H)]
+    D = [[1]] + [[4, j, p[H + j]] for j in range(H)]
+    C = [[1]] + [[4, j, p[2 * H + j]] for j in range(H)]
+    B = [[1]] + [[7, x] for x in p] + [[2]]
+    a1, d1, c1 = len(A), len(D), len(C)
+    A += [[4, j, q[j]] for j in range(H)]
+    D += [[4, j, q[H + j]] for j in range(H)]
+    if rng.chance(1, 2):
+        C += [[5, j] for j in range(H)]
+    C += [[7, x] for x in q] + [[2]]
+    tail = rng.below(4)
+    if tail == 1:
+        A += [[2]]; D += [[2]]
+    elif tail == 2:
+        A += [[5, j] for j in range(H)] + [[8]]
+    elif tail == 3:
+        D += [[7, (base + 2 * (5 * H + 1)) | odd], [8], [2]]
+    order = [0, 1, 2]
+    if rng.chance(1, 2):
+        order = [1, 0, 2]
+    first = {0: a1, 1: d1, 2: c1}
+    phases = [(t, first[t]) for t in order] + [(3, len(B))]
+    hold2 = [(0, a1 + H), (1, d1 + H)]
+    if rng.chance(1, 2):
+        hold2.reverse()
+    phases += hold2 + [(2, len(C))]
+    c = {"id": "hs%d" % idx, "cfg": [H, P, R, scan, 1, 400], "threads": [A, D, C, B], "sched": [],
+         "meta": {"aimed": "helpscan_fill", "oddmode": odd, "disciplined": False}}
+    return c, phases
+
+
+def gen_helpscan_attach(rng, idx, r):
+    """help_scan of a detaching thread Y claims the orphaned record of X (owner null, retired array not empty) while
+    Z attaches and takes the same record: Y is stalled r steps into its detach, Z attaches, Y finishes, Z guards an
+    object that W then retires and scans for."""
+    H = 1 + rng.below(2)
+    P = 4
+    R = H * P + 1 + rng.below(2)
+    scan = rng.below(2)
+    base = 2 + 2 * rng.below(30)
+    g, o, o2 = base, base + 2, base + 4
+    W = [[1], [4, 0, g]]
+    X = [[1], [7, g], [2]]
+    Y = [[1], [2]]
+    Z = [[1], [4, H - 1, o], [9, H - 1]]
+    w1 = len(W)
+    W += [[7, o], [8]]
+    if rng.chance(1, 2):
+        W += [[7, o2], [8]]
+    Z += [[9, H - 1], [5, H - 1]]
+    phases = [(0, w1), (1, len(X)), (2, 1), (2, ("raw", r)), (3, 1), (2, len(Y)), (3, 2), (0, len(W)), (3, len(Z))]
+    c = {"id": "ha%d_r%d" % (idx, r), "cfg": [H, P, R, scan, 1, 400], "threads": [W, X, Y, Z], "sched": [],
+         "meta": {"aimed": "helpscan_attach", "oddmode": 0, "disciplined": False}}
+    return c, phases
+
+
+def gen_phased_cases(ctx, model_exe, rng, n, start=0):
+    """the aimed multi-phase scenarios, their schedules measured on the extracted model; each scenario is emitted as
+    the exact phase order plus perturbed variants (the last r steps of a phase delayed behind the next phase)"""
+    raw = [gen_helpscan_fill(rng, start + i) for i in range(n)]
+    for k in range(max(1, n // 15)):
+        sub = rng.fork()
+        st = sub.s
+        for r in range(1, 46):
+            sub.s = st                              # the same scenario for every stall point r
+            raw.append(gen_helpscan_attach(sub, start + n + k, r))
+    wdir = os.path.join(ctx.work, "phased")
+    os.makedirs(wdir, exist_ok=True)
+    scheds = conc_check.phased_schedules(model_exe, wdir, raw, fuel=40000, tag="hs")
+    out = []
+    for c, ph in raw:
+        s = scheds.get(c["id"], [])
+        c["sched"] = s + [3] * 50
+        out.append(c)
+        # perturbation: cut a random phase boundary and delay the last r steps of the earlier phase
+        if len(s) > 20 and rng.chance(2, 3):
+            c2 = dict(c); c2["id"] = c["id"] + "p"
+            k = 5 + rng.below(len(s) - 10); r = 1 + rng.below(6)
+            t_end = s[k - 1]
+            j = k
+            while j < len(s) and s[j] == s[k]:
+                j += 1
+            c2["sched"] = s[:max(0, k - r)] + s[k:j] + [t_end] * r + s[j:] + [3] * 50
+            out.append(c2)
+    return out
+
+
 def gen_cases(rng, n, start=0):
     return [gen_aimed(rng, start + i) if i % 5 == 4 else gen_case(rng, start + i) for i in range(n)]
 
@@ -273,6 +375,7 @@ def run(ctx):
                 cases.append(json.load(open(os.path.join(cdir, f))))
         ncorpus = len(cases)
         cases += gen_cases(ctx.rng, 6000 if ctx.thorough() else 1500)
+        cases += gen_phased_cases(ctx, model, ctx.rng, 150 if ctx.thorough() else 30, start=200000)
 
     rc1, mlog, rc2, ilog, raw = conc_check.run_both(ctx, model, impl, cases, fuel=40000)
     strip_ghost(mlog)
